@@ -6,8 +6,16 @@ package mint
 
 import (
 	"context"
+	"encoding/hex"
 	"math"
 	"testing"
+	"time"
+
+	"github.com/btcsuite/btcd/chaincfg"
+	"github.com/decred/dcrd/dcrec/secp256k1/v4"
+	"github.com/decred/dcrd/dcrec/secp256k1/v4/ecdsa"
+	"github.com/lightningnetwork/lnd/lnwire"
+	"github.com/lightningnetwork/lnd/zpay32"
 
 	"github.com/elnosh/gonuts/cashu"
 	"github.com/elnosh/gonuts/cashu/nuts/nut04"
@@ -204,4 +212,59 @@ func TestVerifReplay_MintQuoteBalanceWrap(t *testing.T) {
 		t.Fatalf("CONFIRMED: quote for 2^64-2 accepted with balance 2 and max balance 10")
 	}
 	t.Logf("refused with: %v", err)
+}
+
+// vInvoiceWithHash builds a BOLT11 invoice for `sat` with a chosen payment hash.
+func vInvoiceWithHash(t *testing.T, hashHex string, sat uint64) string {
+	hb, err := hex.DecodeString(hashHex)
+	if err != nil || len(hb) != 32 {
+		t.Fatalf("bad hash %q", hashHex)
+	}
+	var h [32]byte
+	copy(h[:], hb)
+	inv, err := zpay32.NewInvoice(&chaincfg.SigNetParams, h, time.Now(), zpay32.Amount(lnwire.MilliSatoshi(sat*1000)), zpay32.Description("test"))
+	if err != nil {
+		t.Fatal(err)
+	}
+	s, err := inv.Encode(zpay32.MessageSigner{SignCompact: func(msg []byte) ([]byte, error) {
+		key, err := secp256k1.GeneratePrivateKey()
+		if err != nil {
+			return nil, err
+		}
+		return ecdsa.SignCompact(key, msg, true), nil
+	}})
+	if err != nil {
+		t.Fatal(err)
+	}
+	return s
+}
+
+// A melt of a *different* invoice that merely shares the payment hash of an
+// unpaid mint quote must not mark that mint quote as paid (internal settlement
+// for less than the quoted amount inflates the supply).
+func TestVerifReplay_InternalSettleOtherInvoice(t *testing.T) {
+	ln := &vLN{FakeBackend: &lightning.FakeBackend{}}
+	m := vNewMint(t, 0, ln)
+	ps := vMintProofs(t, m, []uint64{2}) // 2 sat of honest ecash
+	ln.unsettled = true                   // from now on incoming invoices stay unpaid
+	big, err := m.RequestMintQuote(nut04.PostMintQuoteBolt11Request{Amount: 10000, Unit: "sat"})
+	if err != nil {
+		t.Fatal(err)
+	}
+	time.Sleep(100 * time.Millisecond)
+	small := vInvoiceWithHash(t, big.PaymentHash, 1)
+	mq, err := m.RequestMeltQuote(nut05.PostMeltQuoteBolt11Request{Request: small, Unit: "sat"})
+	if err != nil {
+		t.Skipf("melt quote refused: %v", err)
+	}
+	if _, err := m.MeltTokens(context.Background(), nut05.PostMeltBolt11Request{Quote: mq.Id, Inputs: ps}); err != nil {
+		t.Skipf("melt refused: %v", err)
+	}
+	q2, err := m.GetMintQuoteState(big.Id)
+	if err != nil {
+		t.Fatal(err)
+	}
+	if q2.State == nut04.Paid {
+		t.Fatalf("CONFIRMED: melting %d sat of a foreign invoice with the same payment hash marked the unpaid %d sat mint quote PAID", mq.Amount, big.Amount)
+	}
 }
